@@ -148,6 +148,17 @@ def judge(name, res):
     listed = set(res['listed'])
     # the unity headers are only #included by the unity translation units: they need not be named in a build description
     gen = set(f for f in res['generated'] if not re.search(r'_unity_(entities|types)\.h$', f))
+    # One defect has a shape of its own: a schema that is generated in several passes (its declarations wait for another schema of the file) is
+    # written as Sdai<S>_1.*, Sdai<S>_2.* ... while the scanner predicts Sdai<S>.* .  If that rename explains the whole difference it is reported
+    # once, by the number of schemas in the file (a single-schema file never needs a second pass).
+    suffix = re.compile(r'^(Sdai[A-Z0-9_]+?)_\d+((?:_unity_(?:entities|types))?\.(?:cc|h)|\.init\.cc|Names\.h)$')
+    extra, missing = gen - listed, listed - gen
+    if extra and all(suffix.match(os.path.basename(f)) for f in extra):
+        stems = {suffix.match(os.path.basename(f)).group(1) for f in extra}
+        if all(any(os.path.basename(m).startswith(st) for st in stems) and '/' not in m.replace(os.path.dirname(m) + '/', '') for m in missing):
+            nsch = len(res['schemas'])
+            return [('multi-pass-suffix-files/%s' % ('single-schema-file' if nsch <= 1 else 'multi-schema-file'),
+                     'exp2cxx writes %s where the scanner lists %s' % (sorted(os.path.basename(f) for f in extra)[:4], sorted(os.path.basename(f) for f in missing)[:4]))], False
     for f in sorted(gen - listed):
         out.append(('generated-not-listed/%s' % fileclass(f), 'exp2cxx writes %s, which the scanner does not list' % f))
     for f in sorted(listed - gen):
@@ -180,9 +191,33 @@ def long_names(tier):
                                'TYPE %s = SELECT (%s, zz); END_TYPE;\nTYPE zs = SELECT (zz, yy); END_TYPE;\nEND_SCHEMA;\n' % (t1, e, t1, e, t2, e))
 
 
+def order_dependent(tier):
+    """shapes whose handling depends on the order in which the generator meets declarations (it walks hash tables): every assignment of a pool of
+    names to the roles.  (a) a select with a renamed enumeration / renamed select / defined type as an item; (b) two schemas in one file, one of
+    them a pure extension (only subtypes of entities it USEs, no type or entity of its own root) - optionally with one independent declaration."""
+    import itertools
+    pools = [('shade', 'pick', 'colour', 'surface'), ('zeta', 'choice', 'alpha', 'mm')] if tier == 'quick' else \
+        [('shade', 'pick', 'colour', 'surface'), ('zeta', 'choice', 'alpha', 'mm'), ('surface_or_shade', 'a', 'b9', 'kind_of_thing')]
+    k = 0
+    for pool in pools:
+        for ren, sel, enum, ent in itertools.permutations(pool):
+            k += 1
+            yield ('n_ord_sel_%d' % k, 'SCHEMA n_ord;\nTYPE %s = ENUMERATION OF (red, green); END_TYPE;\nTYPE %s = %s; END_TYPE;\nTYPE %s = SELECT (%s, %s); END_TYPE;\n'
+                                       'ENTITY %s; nm : STRING; END_ENTITY;\nENTITY job; what : %s; END_ENTITY;\nEND_SCHEMA;\n' % (enum, ren, enum, sel, ent, ren, ent, sel))
+    names = [('addon', 'core_schema'), ('plant_extension', 'core_schema'), ('aa', 'zz'), ('zz', 'aa'), ('s2', 's1'), ('s1', 's2')]
+    for ext, core in names:
+        for indep in ('', 'TYPE own_t = INTEGER; END_TYPE;\n', 'ENTITY own_e; q : INTEGER; END_ENTITY;\n'):
+            for first in (core, ext):
+                k += 1
+                c = 'SCHEMA %s;\nTYPE status = ENUMERATION OF (planned, built); END_TYPE;\nENTITY item; tag : STRING; state : status; END_ENTITY;\nENTITY pipe SUBTYPE OF (item); bore : REAL; END_ENTITY;\nEND_SCHEMA;\n' % core
+                e = 'SCHEMA %s;\nUSE FROM %s (item, pipe);\n%sENTITY insulated_pipe SUBTYPE OF (pipe); thickness : REAL; END_ENTITY;\nENTITY valve SUBTYPE OF (item); rating : INTEGER; END_ENTITY;\nEND_SCHEMA;\n' % (ext, core, indep)
+                yield ('n_ord_ext_%d' % k, (c + e) if first == core else (e + c))
+
+
 def all_programs(tier):
     progs = list(gfam.valid_schemas(tier))
     progs += list(long_names(tier))
+    progs += list(order_dependent(tier))
     packed, decls, ent_decl = type_shapes()
     progs += packed
     progs += sorted(NAMING.items())
@@ -236,7 +271,7 @@ def main():
             chk.outcome(kp.split('/')[0])
             k = kp if not name.startswith('shipped') else kp
             t = text if isinstance(text, str) else text.decode('latin1')
-            chk.violation('%s/%s/%s' % (PID, kp, name.split('/')[0] if '/' in name else name), what, {'name': name, 'text': t if len(t) < 30000 else t[:2000]})
+            chk.violation(('%s/%s' % (PID, kp)) if kp.startswith('multi-pass-suffix-files') else '%s/%s/%s' % (PID, kp, name.split('/')[0] if '/' in name else name), what, {'name': name, 'text': t if len(t) < 30000 else t[:2000]})
     chk.bounds = {'programs': len(progs), 'type_shapes': len(decls)}
     if chk.outcomes.get('equal', 0) == 0:
         chk.harness_error('vacuous')
